@@ -49,3 +49,35 @@ package syntax
 //@     invariant forall k in 0..@i :: old(list[k]).Kind != Empty ==> exists j in 0..len(out) :: out[j] == old(list[k])
 //@     invariant (exists k in 0..@i :: old(list[k]).Kind == Empty) ==> seen
 //@     invariant forall j in 0..len(out) :: exists k in j..@i :: out[j] == old(list[k])
+
+// concat (C13): the sequence of the arguments with nested sequences spliced in and empty expressions
+// dropped. Stated by membership (the position arithmetic of the splice would need an induction the
+// engine does not have): every part of the result is an argument that is neither empty nor a sequence,
+// or a part of an argument that is a sequence; every such expression is a part of the result; a result
+// with no parts is a new empty expression, with one part it is that part, otherwise a new sequence.
+//@ pred partOf(list []*Expr, n int, x *Expr) = exists i in 0..n :: (list[i].Kind != Sequence && list[i].Kind != Empty && list[i] == x) || (list[i].Kind == Sequence && exists k in 0..len(list[i].Sub) :: list[i].Sub[k] == x)
+//@ func concat
+//@   option slice-wf
+//@   requires forall k in 0..len(list) :: list[k] != nil && forall j in 0..len(list[k].Sub) :: list[k].Sub[j] != nil
+//@   ensures result != nil
+//@   ensures fresh(result) ==> (result.Kind == Empty && len(result.Sub) == 0 && forall x in 0..len(list) :: list[x].Kind == Empty || (list[x].Kind == Sequence && len(list[x].Sub) == 0)) || (result.Kind == Sequence && len(result.Sub) >= 2 && fresh(result.Sub))
+//@   ensures !fresh(result) ==> partOf(list, len(list), result)
+//@   ensures fresh(result) ==> forall k in 0..len(result.Sub) :: partOf(list, len(list), result.Sub[k])
+//@   ensures fresh(result) && result.Kind == Sequence ==> forall i in 0..len(list) :: (list[i].Kind != Sequence && list[i].Kind != Empty ==> exists k in 0..len(result.Sub) :: result.Sub[k] == list[i]) && (list[i].Kind == Sequence ==> forall j in 0..len(list[i].Sub) :: exists k in 0..len(result.Sub) :: result.Sub[k] == list[i].Sub[j])
+//@   loop 1:
+//@     invariant 0 <= @i && @i <= len(list) && ret != nil && fresh(ret) && ret.Kind == Sequence && (cap(ret.Sub) == 0 || fresh(ret.Sub))
+//@     invariant forall k in 0..len(ret.Sub) :: ret.Sub[k] != nil && partOf(list, @i, ret.Sub[k])
+//@     invariant len(ret.Sub) == 0 ==> forall x in 0..@i :: list[x].Kind == Empty || (list[x].Kind == Sequence && len(list[x].Sub) == 0)
+//@     invariant forall i in 0..@i :: (list[i].Kind != Sequence && list[i].Kind != Empty ==> exists k in 0..len(ret.Sub) :: ret.Sub[k] == list[i]) && (list[i].Kind == Sequence ==> forall j in 0..len(list[i].Sub) :: exists k in 0..len(ret.Sub) :: ret.Sub[k] == list[i].Sub[j])
+
+// multiConcat: builds new expressions only; the argument slices are not written.
+//@ func multiConcat
+//@   option slice-wf
+//@   requires forall k in 0..len(a) :: a[k] != nil && forall j in 0..len(a[k].Sub) :: a[k].Sub[j] != nil
+//@   requires forall k in 0..len(b) :: b[k] != nil && forall j in 0..len(b[k].Sub) :: b[k].Sub[j] != nil
+//@   ensures forall k in 0..len(result) :: result[k] != nil
+//@   ensures len(result) == 0 || fresh(result)
+//@   loop 1:
+//@     invariant 0 <= @i && @i <= len(a) && (cap(ret) == 0 || fresh(ret)) && forall k in 0..len(ret) :: ret[k] != nil
+//@   loop 2:
+//@     invariant 0 <= @i && @i <= len(b) && (cap(ret) == 0 || fresh(ret)) && forall k in 0..len(ret) :: ret[k] != nil
